@@ -166,11 +166,10 @@ Qed.
 Definition qwfP (n : node) : Prop := qwf n = true.
 
 Lemma qwf_field : forall al nm args ak dirs hs subs, qwfP (NField al nm args ak dirs hs subs) ->
-  dirs = [] /\ (hs = false -> subs = []) /\ Forall qwfP subs.
+  (hs = false -> subs = []) /\ Forall qwfP subs.
 Proof.
   intros al nm args ak dirs hs subs H. unfold qwfP in H. simpl in H.
-  apply andb_prop in H as [H H3]. apply andb_prop in H as [H1 H2].
-  split; [destruct dirs; [reflexivity | discriminate]|]. split.
+  apply andb_prop in H as [H2 H3]. split.
   - intros ->. simpl in H2. destruct subs; [reflexivity | discriminate].
   - apply Forall_forall. intros x Hx. eapply forallb_forall in H3; eauto.
 Qed.
@@ -193,19 +192,20 @@ Proof. intros A P f l H. induction H as [|x t Hx _ IH]; simpl; [constructor|]. d
 
 Definition fwf (n : node) : Prop := qwfP n /\ is_field n = true.
 
-Lemma fields_of_fwf : forall l, Forall qwfP l -> Forall fwf (fields_of l).
+Lemma fields_of_fwf : forall l, Forall qwfP l -> Forall fwf (own_fields true l).
 Proof.
-  intros l H. unfold fields_of. induction H as [|x t Hx _ IH]; simpl; [constructor|].
-  destruct (is_field x) eqn:E; [constructor; [split; assumption | exact IH] | exact IH].
+  intros l H. unfold own_fields. induction H as [|x t Hx _ IH]; simpl; [constructor|].
+  destruct (incl_field x) eqn:E; [|exact IH]. constructor; [|exact IH]. split; [assumption|].
+  destruct x; [reflexivity | discriminate].
 Qed.
 
 Lemma frag_contrib_fwf : forall g obj n c, qwfP n -> frag_contrib g obj n = Some c -> Forall fwf c.
 Proof.
-  intros g obj. induction n using node_ind'; intros c Hq Hc; simpl in Hc.
+  intros g obj. induction n using node_ind'; intros c Hq Hc; unfold frag_contrib in Hc; simpl in Hc.
   - inversion Hc; constructor.
   - destruct (should_include dirs); [|inversion Hc; constructor].
     destruct (applies g obj on) as [[|]|]; [| inversion Hc; constructor | discriminate].
-    destruct (concat_opt (map (frag_contrib g obj) subs)) as [rest|] eqn:Er; [|discriminate].
+    destruct (concat_opt (map (frag_contrib_gen true g obj) subs)) as [rest|] eqn:Er; [|discriminate].
     inversion Hc; subst c. pose proof (qwf_subs _ Hq) as Hs. simpl in Hs.
     apply Forall_app. split; [apply fields_of_fwf; exact Hs|].
     apply concat_opt_Forall2 in Er as [cs [F ->]]. apply Forall_concat.
@@ -216,23 +216,16 @@ Qed.
 
 Lemma flatten_frags_fwf : forall g obj l flat0, Forall qwfP l -> flatten_frags g obj l = Some flat0 -> Forall fwf flat0.
 Proof.
-  intros g obj l flat0 Hq H. unfold flatten_frags in H.
-  destruct (concat_opt (map (frag_contrib g obj) l)) as [rest|] eqn:Er; [|discriminate].
+  intros g obj l flat0 Hq H. unfold flatten_frags, flatten_frags_gen in H.
+  destruct (concat_opt (map (frag_contrib_gen true g obj) l)) as [rest|] eqn:Er; [|discriminate].
   inversion H; subst flat0. apply Forall_app. split; [apply fields_of_fwf; exact Hq|].
   apply concat_opt_Forall2 in Er as [cs [F ->]]. apply Forall_concat.
   clear H. revert cs F. induction Hq as [|x t Hx _ IH]; intros cs F; simpl in F; inversion F; subst; constructor; auto.
   eapply frag_contrib_fwf; eauto.
 Qed.
 
-Lemma fwf_collect : forall g obj l flat0, Forall qwfP l -> flatten_frags g obj l = Some flat0 ->
-  collect_all g obj l = flat0.
-Proof.
-  intros g obj l flat0 Hq H. rewrite <- (flatten_frags_collects g obj l flat0 H).
-  pose proof (flatten_frags_fwf _ _ _ _ Hq H) as Hf. clear H.
-  induction Hf as [|x t [Hx1 Hx2] _ IH]; [reflexivity|]. simpl.
-  destruct x as [al nm args ak dirs hs subs|]; [|discriminate]. destruct (qwf_field _ _ _ _ _ _ _ Hx1) as [-> _].
-  simpl. rewrite IH. reflexivity.
-Qed.
+Lemma fwf_collect : forall g obj l flat0, flatten_frags g obj l = Some flat0 -> collect_all g obj l = flat0.
+Proof. intros g obj l flat0 H. symmetry. apply flatten_frags_collects; exact H. Qed.
 
 Lemma subs_of_qwf : forall a l, Forall fwf l -> Forall qwfP (subs_of a l).
 Proof.
@@ -257,7 +250,8 @@ Lemma flatten_obj_inv : forall f g ty l flat,
   exists flat0 merged, flatten_frags g ty l = Some flat0 /\ merge_same_alias false flat0 = Some merged /\
                        Forall2 (child_of f g ty) merged flat.
 Proof.
-  intros f g ty l flat H. cbn [flatten] in H.
+  intros f g ty l flat H. unfold flatten in H. cbn [flatten_gen] in H. change (flatten_gen true) with flatten in H.
+  change (flatten_frags_gen true) with flatten_frags in H.
   destruct (flatten_frags g ty l) as [flat0|] eqn:E0; [|discriminate].
   destruct (merge_same_alias false flat0) as [merged|] eqn:E1; [|discriminate].
   exists flat0, merged. split; [reflexivity|]. split; [exact E1|].
@@ -276,7 +270,8 @@ Lemma flatten_union_inv : forall f g u l s',
     forall x, In x s' -> exists body, x = NFrag (n_alias x) [] body /\
                                       flatten f false g (RObj (n_alias x)) (Some l) = Some (Some body).
 Proof.
-  intros f g u l s' H. cbn [flatten] in H. destruct (union_members g u) as [ms|]; [|discriminate].
+  intros f g u l s' H. unfold flatten in H. cbn [flatten_gen] in H. change (flatten_gen true) with flatten in H.
+  destruct (union_members g u) as [ms|]; [|discriminate].
   exists ms. split; [reflexivity|].
   match type of H with match mapo ?F ms with _ => _ end = _ => destruct (mapo F ms) as [frs|] eqn:Em; [|discriminate] end.
   inversion H; subst s'. apply mapo_Forall2 in Em. clear H.
@@ -289,8 +284,8 @@ Qed.
 
 Lemma flatten_some_sub : forall f g t l, flatten f false g t (Some l) <> Some None.
 Proof.
-  intros [|f] g t l H; [discriminate|]. destruct t as [|o|u]; cbn [flatten] in H; [discriminate| |].
-  - destruct (flatten_frags g o l); [|discriminate]. destruct (merge_same_alias false l0); [|discriminate].
+  intros [|f] g t l H; [discriminate|]. unfold flatten in H. destruct t as [|o|u]; cbn [flatten_gen] in H; [discriminate| |].
+  - destruct (flatten_frags_gen true g o l); [|discriminate]. destruct (merge_same_alias false l0); [|discriminate].
     match type of H with match ?m with _ => _ end = _ => destruct m; discriminate end.
   - destruct (union_members g u); [|discriminate].
     match type of H with match ?m with _ => _ end = _ => destruct m; discriminate end.
@@ -298,7 +293,7 @@ Qed.
 
 Lemma flatten_none_sub : forall f g t r, flatten f false g t None = Some r -> t = RScalar /\ r = None.
 Proof.
-  intros [|f] g t r H; [discriminate|]. destruct t as [|o|u]; cbn [flatten] in H; [inversion H; auto | discriminate | discriminate].
+  intros [|f] g t r H; [discriminate|]. unfold flatten in H. destruct t as [|o|u]; cbn [flatten_gen] in H; [inversion H; auto | discriminate | discriminate].
 Qed.
 
 (** ** values of scalar-typed fields *)
@@ -547,7 +542,7 @@ Section Norm.
     intros f HV ty id sels flat Hfl Hq Hflat.
     destruct (flatten_obj_inv f g ty sels flat Hfl) as [flat0 [merged [E0 [E1 F2]]]].
     pose proof (flatten_frags_fwf _ _ _ _ Hq E0) as Hfw.
-    rewrite eval_ref_S, (fwf_collect _ _ _ _ Hq E0).
+    rewrite eval_ref_S, (fwf_collect _ _ _ _ E0).
     unfold flat_ok in Hflat. apply andb_prop in Hflat as [Hnd0 Hnok].
     assert (Hnd : NoDup (map n_alias flat)) by (apply nodup_str_NoDup; exact Hnd0).
     assert (Hal : map n_alias merged = map n_alias flat).
